@@ -852,8 +852,12 @@ clr_poss(bitint383_t *restrict cand, const bitint383_t *poss)
 }
 
 static void
-shift(bitint383_t cand[static 3U], const unsigned int y, echs_shift_t sh)
+shift(
+	bitint383_t cand[static 3U],
+	echs_scale_t s, const unsigned int y, echs_shift_t sh)
 {
+/* candidates are months and days of scale S, count their days and tell
+ * their weekdays in that scale */
 
 	if (LIKELY(!sh)) {
 		return;
@@ -873,6 +877,7 @@ shift(bitint383_t cand[static 3U], const unsigned int y, echs_shift_t sh)
 			int nu_d = md.d + d;
 			int nu_m = md.m;
 			unsigned int nu_y = y + iy;
+			unsigned int nu_n;
 
 		reassess:
 			if (UNLIKELY(nu_d <= 0)) {
@@ -880,11 +885,21 @@ shift(bitint383_t cand[static 3U], const unsigned int y, echs_shift_t sh)
 				if (UNLIKELY(--nu_m <= 0)) {
 					nu_m += 12, nu_y--;
 				}
-				nu_d += __get_ndom(nu_y, nu_m);
+				nu_n = echs_scale_ndim(s, nu_y, nu_m);
+				if (UNLIKELY(!nu_n)) {
+					/* beyond the scale */
+					continue;
+				}
+				nu_d += nu_n;
 				goto reassess;
-			} else if (UNLIKELY(nu_d > (int)__get_ndom(nu_y, nu_m))) {
+			}
+			nu_n = echs_scale_ndim(s, nu_y, nu_m);
+			if (UNLIKELY(!nu_n)) {
+				/* beyond the scale */
+				continue;
+			} else if (UNLIKELY(nu_d > (int)nu_n)) {
 				/* fixup too, grrr */
-				nu_d -= __get_ndom(nu_y, nu_m);
+				nu_d -= nu_n;
 				if (UNLIKELY(++nu_m > 12)) {
 					nu_m -= 12, nu_y++;
 				}
@@ -910,8 +925,8 @@ shift(bitint383_t cand[static 3U], const unsigned int y, echs_shift_t sh)
 			int nu_d = md.d;
 			int nu_m = md.m;
 			unsigned int nu_y = y + iy;
-			echs_wday_t w = ymd_get_wday(nu_y, nu_m, nu_d);
-			unsigned int u5, u7;
+			echs_wday_t w = echs_scale_wday(s, nu_y, nu_m, nu_d);
+			unsigned int u5, u7, nu_n;
 			int nu_b = b;
 
 			if (w >= SAT) {
@@ -945,11 +960,21 @@ shift(bitint383_t cand[static 3U], const unsigned int y, echs_shift_t sh)
 				if (UNLIKELY(--nu_m <= 0)) {
 					nu_m += 12, nu_y--;
 				}
-				nu_d += __get_ndom(nu_y, nu_m);
+				nu_n = echs_scale_ndim(s, nu_y, nu_m);
+				if (UNLIKELY(!nu_n)) {
+					/* beyond the scale */
+					continue;
+				}
+				nu_d += nu_n;
 				goto reassessB;
-			} else if (UNLIKELY(nu_d > (int)__get_ndom(nu_y, nu_m))) {
+			}
+			nu_n = echs_scale_ndim(s, nu_y, nu_m);
+			if (UNLIKELY(!nu_n)) {
+				/* beyond the scale */
+				continue;
+			} else if (UNLIKELY(nu_d > (int)nu_n)) {
 				/* fixup too, grrr */
-				nu_d -= __get_ndom(nu_y, nu_m);
+				nu_d -= nu_n;
 				if (UNLIKELY(++nu_m > 12)) {
 					nu_m -= 12, nu_y++;
 				}
@@ -1147,7 +1172,7 @@ rrul_fill_yly(echs_instant_t *restrict tgt, size_t nti, rrulsp_t rr)
 		clr_poss(cand, &rr->pos);
 
 		/* do the shifts */
-		shift(cand, y, rr->shift);
+		shift(cand, srcsca, y, rr->shift);
 
 		/* now check the bitset */
 		for (int iy = -1; iy <= 1; iy++) {
@@ -1352,7 +1377,7 @@ rrul_fill_mly(echs_instant_t *restrict tgt, size_t nti, rrulsp_t rr)
 		clr_poss(cand, &rr->pos);
 
 		/* do the shifts */
-		shift(cand, y, rr->shift);
+		shift(cand, srcsca, y, rr->shift);
 
 		/* now check the bitset */
 		for (int iy = -1; iy <= 1; iy++) {
